@@ -525,21 +525,14 @@ class SequenceEncoder(AbstractItemEncoder):
     def _isDefault(component, namedType, encodeFun, options):
         defaultValue = namedType.asn1Object
 
-        try:
-            if component == defaultValue:
-                return True
-
-        except error.PyAsn1Error:
-            # records do not compare when they hold their absent components
-            # differently (never set, placeholder)
-            pass
-
         if (isinstance(defaultValue, base.SimpleAsn1Type) or
                 not isinstance(component, base.Asn1Item)):
-            return False
+            return component == defaultValue
 
-        # constructed values: the order of SET OF members or the way an
-        # absent component is held do not matter, what they encode to does
+        # constructed values are compared by what they encode to: == looks
+        # at the inner value of a CHOICE only (not at the alternative), is
+        # sensitive to the order of SET OF members and raises for records
+        # that hold an absent component differently
         try:
             return (encodeFun(component, **options) ==
                     encodeFun(defaultValue, **options))
